@@ -38,19 +38,30 @@ Theorem C03_set_exact : forall lit fl p value fmt vo d next d' next' o pn c,
 Proof. exact update_exact. Qed.
 Print Assumptions C03_set_exact.
 
-(* ... and that new node holds the converted new value, no tag, and - when a
-   ruamel wrapper was built - a fresh identity and the anchor of the old node
-   (so aliases keep following it). *)
+(* ... and that new node holds the converted new value, no tag other than the
+   ScalarBoolean marker of Doc.is_sbool, and - when a ruamel wrapper was built -
+   a fresh identity and the anchor of the old node (so aliases keep following
+   it), whatever the class of the old node (ScalarBoolean `&x true` included). *)
 Theorem C03_new_node_value : forall lit fl src value fmt fresh vo new,
   make_new_node lit fl src value fmt fresh vo = ROk new ->
   exists nn, conv lit fl fmt value = ROk nn /\
     exists i, new = NLeaf i (nn_val nn) /\
-      tag i = None /\
+      tag i = (if nn_wrapped nn then nn_tag nn else None) /\
       (nn_wrapped nn = true ->
          oid i = fresh /\ has_anchor_attr i = true /\
          anchor i = match src with Some s => nonempty_anchor s | None => None end).
 Proof. exact make_new_node_shape. Qed.
 Print Assumptions C03_new_node_value.
+
+(* The new node is a ScalarBoolean (the int subclass, Doc.is_sbool) exactly when
+   a boolean conversion built it (format BOOLEAN, or DEFAULT with a value that
+   literal_eval reads as a bool); every other new node carries no tag. *)
+Theorem C03_new_node_sbool : forall lit fl src value fmt fresh vo new nn,
+  make_new_node lit fl src value fmt fresh vo = ROk new ->
+  conv lit fl fmt value = ROk nn ->
+  is_sbool new = nn_sbool nn.
+Proof. exact make_new_node_sbool. Qed.
+Print Assumptions C03_new_node_sbool.
 
 (* What the spec means, pointwise. *)
 Theorem C03_subst_seq_pointwise : forall P repl i els n x,
